@@ -250,9 +250,33 @@ def shrink_candidates(inp):
 MANIFEST = {
     "level_claimed": {
         "category": "proof",
-        "text": "filled in by README phase",
+        "text": ("PARTIAL (the geth interpreter is common code and is not modelled; the theorems live at the vm.StateDB interface). "
+                 "Coq theorems C03_journal_revert_exact / C03_step_refines_reference: for EVERY sequence of vm.StateDB calls that obeys the "
+                 "interpreter's usage protocol (CreateAccount only on blank addresses, SubRefund <= refund, reverts to live snapshot ids) - "
+                 "any length, any nesting of Snapshot/RevertToSnapshot - the model of Nibiru's journaled, lazily-loading, OriginStorage-caching "
+                 "StateDB returns from every call exactly what the reference semantics (plain maps, Snapshot = push a full copy, Revert = pop) "
+                 "returns, and all getters agree afterwards. C03_invariants_reachable + C03_commit_writes_exactly_visible: in every reachable "
+                 "StateDB the caches are coherent and Journal.dirties counts the journal, hence Commit leaves for every address exactly the "
+                 "reference's end-of-transaction account and storage in the keeper (balance = wei/10^12; self-destructed accounts removed with "
+                 "their storage; accounts nobody is charged for need no write). C03_history_from_genesis / C03_history_equals_reference_history: "
+                 "for multi-transaction histories moving whole multiples of 10^12 wei every return value of every call equals the pure "
+                 "reference history's and the final keeper is the reference's final world. C03_refund_cap_eq_geth, C03_refund_cap_bounds, "
+                 "C03_nonce_bracket, C03_parse_wei_multiple cover ApplyEvmMsg's arithmetic. The model is run against the real statedb.StateDB + "
+                 "keeper stores AND go-ethereum core/state on generated call sequences (return value of every call, keeper table after every "
+                 "commit), and generated EVM bytecode is run through Keeper.ApplyEvmMsg vs geth core.ApplyMessage (gas after refunds, error "
+                 "class, return data, logs, post-state); the proved-sound checkers Pb / Pprog_b are evaluated on those traces."),
         "design_ref": "DESIGN.md §5 C03",
     },
-    "level_note": "",
-    "technique": "Coq refinement proof (journaled StateDB with caches ⊑ stack of full state copies) + three-way differential correspondence",
+    "level_note": ("Not proved: the interpreter; that geth core/state implements the copy-stack reference (tested three-way on every run); that the "
+                   "residual difference - Nibiru keeps touched empty accounts, geth deletes them (EIP-158), visible only through Exist/GetCodeHash on "
+                   "empty accounts - cannot influence London-rules execution (argued in README, exercised by the bytecode driver). Model abstractions: "
+                   "code identified with its hash (stateObject.code cache / DirtyCode not modelled), linear instead of binary search of validRevisions, "
+                   "no uint64 wrap-around, no negative balances, no precompile/cache-context layer (C04). Trusted: Coq kernel + vm_compute, Go drivers "
+                   "harness/c03 (id encodings, panic capture, gas tracer), tools/props/c03.py rendering, go-ethereum core/state + core.ApplyMessage as "
+                   "the meaning of 'upstream'. Two tried code changes are invisible at this interface and are not detected (Journal.Revert not "
+                   "decrementing dirties; final Commit not updating OriginStorage): the StateDB is discarded after the final Commit."),
+    "technique": ("Coq refinement proof: observable view of the journaled StateDB; per-method forward simulation + journal-revert lemmas; simulation "
+                  "relation with saved revisions; structural invariants via decomposition into primitive transitions; pointwise state equality "
+                  "(no functional extensionality). Tie to the code: differential correspondence model vs Nibiru vs go-ethereum on generated call "
+                  "sequences and generated bytecode, inside Coq with vm_compute."),
 }
